@@ -200,3 +200,38 @@ pub fn relocate(b: &mut Built, at: u64, hole: u64) {
         }
     }
 }
+
+/// Make the two header tables designate the same bytes, or nested / overlapping ranges: e_phoff and e_shoff equal (or
+/// one inside the other's range) with counts chosen so that the byte sizes coincide exactly (8k program headers = 7k
+/// section headers in ELF64, 5k = 4k in ELF32), or differ by one entry. Both tables stay inside the file.
+pub fn alias_tables(rng: &mut Rng, b: &mut Built) -> Option<String> {
+    let c64 = b.enc.c64;
+    let (phsz, shsz, pk, sk) = if c64 { (56u64, 64u64, 8u64, 7u64) } else { (32, 40, 5, 4) };
+    let ehsize: u64 = if c64 { 64 } else { 52 };
+    let len = b.bytes.len() as u64;
+    let unit = phsz * pk; // = shsz * sk
+    if len < ehsize + unit {
+        return None;
+    }
+    let off = match rng.below(3) {
+        0 if b.shoff != 0 && b.shoff + unit <= len => b.shoff,
+        1 if b.phoff != 0 && b.phoff + unit <= len => b.phoff,
+        _ => ehsize + rng.below(len - ehsize - unit + 1),
+    };
+    let kmax = ((len - off) / unit).max(1);
+    let k = 1 + rng.below(kmax.min(3));
+    let (phnum, shnum, shift) = match rng.below(4) {
+        0 | 1 => (pk * k, sk * k, 0),  // exactly the same bytes
+        2 => (pk * k, sk * k - 1, 0),  // same start, section table one entry shorter
+        _ => (pk * k - 1, sk * k - 1, phsz), // same end region, different starts
+    };
+    if off + shift + (shnum * shsz).max(phnum * phsz) > len || phnum >= 0xffff || shnum >= 0xff00 {
+        return None;
+    }
+    b.poke("ehdr.e_phoff", off);
+    b.poke("ehdr.e_shoff", off + shift);
+    b.poke("ehdr.e_phnum", phnum);
+    b.poke("ehdr.e_shnum", shnum);
+    b.poke("ehdr.e_shstrndx", 0);
+    Some(format!("e_phoff={off:#x} x{phnum}, e_shoff={:#x} x{shnum} (the two tables share their bytes)", off + shift))
+}
